@@ -108,3 +108,11 @@ Proof. exact valid_pinned_reads_empty. Qed.
 (* non-vacuity: the three witness buffers are arbitrary byte lists in range *)
 Theorem C07_nonvacuous : bytes_ok d5b /\ bytes_ok d5c /\ zlen d5c < W32 - 16.
 Proof. exact witnesses_bytes_ok. Qed.
+
+(* ... and the premise "accepted" of C07_valid_safe / C07_valid_decodes is
+   inhabited, here by a buffer that is NOT a canonical encoding (non-NUL
+   padding byte); canonical ones by C07_valid_accepts_canonical *)
+Theorem C07_accepted_nonvacuous :
+  bytes_ok acc_noncanon /\ zlen acc_noncanon < 134217728 /\
+  valid_message_p acc_noncanon (zlen acc_noncanon) = Ok true.
+Proof. exact accepted_witness. Qed.
